@@ -38,9 +38,13 @@ def key_bytes(name):
 
 
 ENDERS = ("enter", "ctrl-c", "ctrl-x", "alt-a", "f1", "f2", "ctrl-t")
+# no chain lets a list-dependent action (accept, toggle, up, down) FOLLOW a query edit inside the same chain: the real
+# code then acts on the list as displayed at that moment, i.e. in the middle of the re-filtering (legitimately timing
+# dependent; the in-process session streams cover that window with the trace) — an edit may only come last
 CHAINS = ["toggle+up", "up+toggle", "toggle+down+toggle", "if-query-empty(toggle)+up", "if-query-empty(abort)+accept",
-          "if-query-not-empty(unix-line-discard)+accept", "if-non-matched(abort)+accept", "if-query-empty(up)+up+accept",
-          "select-all+accept", "up:2", "if-non-matched(unix-line-discard)+up", "toggle-all", "accept(xx)"]
+          "if-query-not-empty(abort)+accept", "if-non-matched(abort)+accept", "if-query-empty(up)+up+accept",
+          "if-query-not-empty(toggle)+down", "select-all+accept", "up:2", "up+if-non-matched(unix-line-discard)",
+          "toggle+if-query-not-empty(unix-line-discard)", "toggle-all", "accept(xx)"]
 
 
 def gen(rng, tier, n):
@@ -147,29 +151,41 @@ def run_one(case, slow=1.0):
         os.write(w, ("\n".join(items) + "\n").encode())
         os.close(w)
 
-        def drain():
-            while True:
-                rl, _, _ = select.select([master], [], [], 0)
-                if not rl:
-                    break
-                try:
-                    if not os.read(master, 65536):
-                        break
-                except OSError:
-                    break
-        time.sleep(0.35 * slow)
-        drain()
+        def settle(quiet, limit, need_output=False):
+            """read the terminal until nothing has been drawn for `quiet` seconds (every event redraws, heart beats
+            redraw while reading / matching is in progress, an idle skim draws nothing)"""
+            t_end = time.time() + limit
+            last = time.time()
+            seen = not need_output
+            while time.time() < t_end:
+                rl, _, _ = select.select([master], [], [], 0.02)
+                if rl:
+                    try:
+                        data = os.read(master, 65536)
+                        if data:
+                            last = time.time()
+                            if b"\x1b[6n" in data:
+                                # the terminal layer asks for the cursor position at start-up and swallows whatever is typed
+                                # while it waits (300 ms) for the report: answer like a terminal does
+                                os.write(master, b"\x1b[1;1R")
+                                seen = True
+                    except OSError:
+                        return
+                elif seen and time.time() - last >= quiet:
+                    return
+        # nothing may be typed before skim has asked for (and received) the cursor position report: keys typed earlier are
+        # flushed by the switch to raw mode or swallowed by the wait for the report
+        settle(0.25 * slow, 6.0 * slow, need_output=True)
         for k in keys:
             if proc.poll() is not None:
                 break
-            if k in ENDERS:
-                time.sleep(0.30 * slow)
             try:
                 os.write(master, key_bytes(k))
             except OSError:
                 break
-            time.sleep((0.12 if k in ("btab", "f1", "f2") or k.startswith("alt-") else 0.05) * slow)
-            drain()
+            if k in ("btab", "f1", "f2") or k.startswith("alt-"):
+                time.sleep(0.08 * slow)      # multi-byte key sequences: let the terminal layer time out its escape parsing
+            settle(0.15 * slow, 3.0 * slow)
         try:
             out, _ = proc.communicate(timeout=10)
             rc = proc.returncode
